@@ -5,3 +5,5 @@ package internal
 
 //@ func (*internal.ChannelState).AddLog {C02,C03}
 //@   effectfree -- abstraction: the stage log (object behind Stages) is not modelled; frame obligation below keeps it honest
+
+//@ coverage [record-codec] {C06}: ChannelState, EncodedVoucher, EncodedVoucherResult
